@@ -22,6 +22,12 @@ FIXED_EN = ['3', '12', '2.5', '1,000', 'three', 'twenty', 'hundred', 'first', 'h
             'am', 'pm', '3:30', 'days', 'ago', 'yes', 'no', '#tag', '@me', '1.2.3.4', 'a@b.com', 'x.com']
 
 
+# closed pool of English entity expressions, one or two per entity family, including the forms in which one entity is
+# written inside another (a dotted quad inside an IPv6 address, a number inside an amount)
+FIXED_EN_ENTITIES = ['2.5 dollars', '50 yen', '30', 'three', '3 kg', '20%', 'nov 7', '3pm', '2012', 'friday', '3 days', '1.2.3.4',
+                     '::ffff:192.168.1.1', 'a@b.com', 'x.com', 'yes']
+
+
 def norm(s):
     """independent re-implementation of the documented, length-preserving normalisation"""
     out = []
@@ -56,6 +62,7 @@ def worker_init():
     S['cultures'] = sorted(S['models'])
     inputs = collections.defaultdict(dict)
     ent_texts = collections.defaultdict(collections.Counter)
+    mods = collections.defaultdict(collections.Counter)
     for s, i, spec in specs.supported_cases(entity='Model'):
         cul = s['culture']
         if cul not in S['models']:
@@ -63,6 +70,13 @@ def worker_init():
         ref = specs.reference_of(spec, registry.REF)
         inputs[cul].setdefault(spec['Input'], (ref, s['recognizer']))
         for r in spec.get('Results') or []:
+            vals = ((r.get('Resolution') or {}).get('values') or []) if isinstance(r.get('Resolution'), dict) else []
+            kinds = {v.get('Mod') for v in vals if isinstance(v, dict) and v.get('Mod')}
+            if kinds and isinstance(r.get('Text'), str):
+                words = r['Text'].lower().split()
+                if len(words) >= 2 and words[0].isalpha():
+                    for kind in kinds:
+                        mods[cul][(kind, words[0])] += 1
             t = r.get('Text')
             if isinstance(t, str) and 2 <= len(t) <= 24:
                 ent_texts[cul][t.lower()] += 1
@@ -81,7 +95,17 @@ def worker_init():
             top = FIXED_EN + [t for t in top if t not in FIXED_EN][:8]
         S['pool'][cul] = top + [x for x in specials if x not in top]
         ents = [t for t, _ in sorted(ent_texts[cul].items(), key=lambda kv: (-kv[1], len(kv[0]), kv[0]))][:CFG['n_entities']]
+        if cul == 'en-us':
+            ents = FIXED_EN_ENTITIES + [e for e in ents if e not in FIXED_EN_ENTITIES]
         S['entities'][cul] = ents
+        # the two most frequent leading words for every Mod kind (before / after / since / until / approx / start / end ...)
+        per_kind = collections.defaultdict(list)
+        for (kind, w), n in sorted(mods[cul].items(), key=lambda kv: (-kv[1], kv[0])):
+            if len(per_kind[kind]) < 2 and not any(w in v for v in per_kind.values()):
+                per_kind[kind].append(w)
+        S.setdefault('mods', {})[cul] = [w for kind in sorted(per_kind) for w in per_kind[kind]]
+        dts = [t for t, _ in sorted(ent_texts[cul].items(), key=lambda kv: (-kv[1], len(kv[0]), kv[0]))]
+        S.setdefault('dt_entities', {})[cul] = [t for t in dts if any(ch.isdigit() for ch in t)][:6]
 
 
 def calls(cul, q, ref):
@@ -96,7 +120,7 @@ def calls(cul, q, ref):
 def build(ch):
     """-> (source label, culture, query, reference)"""
     S.pop('only', None)
-    part = ch.pick('part', ('specs', 'tokens-k2', 'tokens-k3', 'entity-pairs', 'entity-triples'))
+    part = ch.pick('part', ('specs', 'tokens-k2', 'tokens-k3', 'entity-pairs', 'entity-triples', 'modifier-stacks'))
     cul = ch.pick('culture', S['cultures'])
     if part == 'specs':
         items = S['inputs'].get(cul, [])
@@ -117,6 +141,21 @@ def build(ch):
             toks.append(ch.pick('t3', pool))
         joiner = ch.pick('joiner', (' ', ''))
         return part, cul, joiner.join(toks), registry.REF
+    if part == 'modifier-stacks':
+        # one or two modifier words (the first words of spec entities that resolve with a Mod: before/after/since/around ...)
+        # stacked in front of an entity expression, alone or after another entity
+        ms, es = S['mods'].get(cul) or [], S['dt_entities'].get(cul) or []
+        if not ms or not es:
+            ch.prune()
+        m1 = ch.pick('m1', ms)
+        ch.shard()
+        m2 = ch.pick('m2', [None] + ms)
+        e = ch.pick('entity', es[:4])
+        lead = ch.pick('lead', (None, es[0]))
+        q = m1 + ' ' + (m2 + ' ' if m2 else '') + e
+        if lead:
+            q = lead + ', ' + q
+        return part, cul, q, registry.REF
     ents = S['entities'][cul]
     if part == 'entity-pairs':
         a = ch.pick('e1', ents)
@@ -124,7 +163,7 @@ def build(ch):
         b = ch.pick('e2', ents)
         sep = ch.pick('sep', CFG['seps'])
         return part, cul, a + sep + b, registry.REF
-    ents = ents[:CFG['n_triple']]
+    ents = ents[:CFG['n_triple']] if cul != 'en-us' else ents[:len(FIXED_EN_ENTITIES) - 4]
     a = ch.pick('e1', ents)
     ch.shard()
     b = ch.pick('e2', ents)
